@@ -203,7 +203,7 @@ def all_cases(tier, seed):
             yield r
 
 
-def _run_events(args):
+def _collect_events(args):
     # every worker enumerates the cases itself and keeps its share (contiguous blocks of 50, dealt round-robin): the list of
     # all thorough cases is several GB once it is copied into 16 forked workers
     tier, seed, part, nparts = args
@@ -241,26 +241,59 @@ def _judge(shard):
     return res.distinct, res.generated, {st['tid']: st['verdict'] for st in res.states() if st['verdict'] != 'pending'}
 
 
-def judge_events(events, ev, vd):
-    shards = common.chunks(events, tlc.NCPU)
-    with mp.Pool(len(shards)) as pool:
-        outs = pool.map(_judge, shards)
-    fam = {}
-    for shard, (d, g, verdicts) in zip(shards, outs):
-        ev.states += d
-        ev.transitions += g
+def _run_events(args):
+    """One worker: run its share of the cases through ISMAGS, let TLC judge them in batches, return a summary (the events of
+    the thorough tier do not fit in memory sixteen times over)."""
+    import hashlib
+    import json
+    import shutil
+    events = _collect_events(args)
+    out = {'d': 0, 'g': 0, 'n': 0, 'fam': {}, 'nontrivial': set(), 'bad': [], 'sample': None}
+    for lo in range(0, len(events), 6000):
+        shard = events[lo:lo + 6000]
+        work = tlc.scratch('c06_')
+        try:
+            tf = tlc.write_json(work, 'trace.json', [{k: e[k] for k in ('G', 'H', 'mode', 'sym', 'Y')} for e in shard])
+            res = tlc.run('Trace_SubIso', 'SPECIFICATION Spec\n', dump=True, env={'TRACE_FILE': tf}, workdir=work, workers=1, timeout=3400)
+            verdicts = {st['tid']: st['verdict'] for st in res.states() if st['verdict'] != 'pending'}
+        finally:
+            shutil.rmtree(work, ignore_errors=True)
+        out['d'] += res.distinct
+        out['g'] += res.generated
         for i, e in enumerate(shard, 1):
-            ev.traces += 1
-            ev.evaluations += 1
-            fam[e['fam']] = fam.get(e['fam'], 0) + 1
+            out['n'] += 1
+            out['fam'][e['fam']] = out['fam'].get(e['fam'], 0) + 1
             v = verdicts.get(i, 'no-verdict')
             if e['err']:
                 v = 'matcher-raised ' + e['err']
             if len(e['H']['nodes']) >= 2 and len(e['G']['nodes']) >= 2:
-                ev.nontrivial_case([e['G'], e['H'], e['mode'], e['sym']])
+                case = [e['G'], e['H'], e['mode'], e['sym']]
+                out['nontrivial'].add(hashlib.sha1(json.dumps(common.jsonable(case), sort_keys=True).encode()).hexdigest()[:16])
             if v != 'ok':
-                vd.violation('trace-rejected', {k: e[k] for k in ('G', 'H', 'mode', 'sym', 'Y', 'fam')},
-                             '%s symmetry=%s on %s: %s' % (e['mode'], e['sym'], e['fam'], v))
+                out['bad'].append(({k: e[k] for k in ('G', 'H', 'mode', 'sym', 'Y', 'fam')}, '%s symmetry=%s on %s: %s' % (e['mode'], e['sym'], e['fam'], v)))
+        if out['sample'] is None and shard:
+            out['sample'] = {k: shard[len(shard) // 2][k] for k in ('G', 'H', 'mode', 'sym', 'Y')}
+    return out
+
+
+def judge_events(events, ev, vd):
+    """(selftest / replay) judge a small list of events in this process."""
+    d, g, verdicts = _judge(events)
+    ev.states += d
+    ev.transitions += g
+    fam = {}
+    for i, e in enumerate(events, 1):
+        ev.traces += 1
+        ev.evaluations += 1
+        fam[e['fam']] = fam.get(e['fam'], 0) + 1
+        v = verdicts.get(i, 'no-verdict')
+        if e['err']:
+            v = 'matcher-raised ' + e['err']
+        if len(e['H']['nodes']) >= 2 and len(e['G']['nodes']) >= 2:
+            ev.nontrivial_case([e['G'], e['H'], e['mode'], e['sym']])
+        if v != 'ok':
+            vd.violation('trace-rejected', {k: e[k] for k in ('G', 'H', 'mode', 'sym', 'Y', 'fam')},
+                         '%s symmetry=%s on %s: %s' % (e['mode'], e['sym'], e['fam'], v))
     return fam
 
 
@@ -272,13 +305,25 @@ def run(tier, seed, ev, vd):
                       'when nothing is common (maximum size 0) the answer of largest_common_subgraph is not constrained']
     nparts = tlc.NCPU * 2
     with mp.Pool(tlc.NCPU, maxtasksperchild=1) as pool:
-        evs = pool.map(_run_events, [(tier, seed, part, nparts) for part in range(nparts)], chunksize=1)
-    events = [e for p in evs for e in p]
-    fam = judge_events(events, ev, vd)
+        outs = pool.map(_run_events, [(tier, seed, part, nparts) for part in range(nparts)], chunksize=1)
+    fam, nevents = {}, 0
+    for o in outs:
+        ev.states += o['d']
+        ev.transitions += o['g']
+        ev.traces += o['n']
+        ev.evaluations += o['n']
+        nevents += o['n']
+        ev.nontrivial |= o['nontrivial']
+        for k, n in o['fam'].items():
+            fam[k] = fam.get(k, 0) + n
+        for sc, detail in o['bad']:
+            vd.violation('trace-rejected', sc, detail)
     ev.exhaustive = True
     ev.extra['events_by_family'] = fam
-    ev.tlc_runs.append({'run': 'TRACE Trace_SubIso', 'events': len(events)})
-    ev.sample({'kind': 'recorded ISMAGS run judged by TLC', 'event': {k: events[len(events) // 2][k] for k in ('G', 'H', 'mode', 'sym', 'Y')}})
+    ev.tlc_runs.append({'run': 'TRACE Trace_SubIso', 'events': nevents})
+    smp = next((o['sample'] for o in outs if o['sample']), None)
+    if smp:
+        ev.sample({'kind': 'recorded ISMAGS run judged by TLC', 'event': smp})
 
 
 def replay(sc):
